@@ -2,7 +2,7 @@ SPECIFICATION TraceSpec
 CONSTANTS
   ClientTTLms = 300
   SlackMs = 1500
-INVARIANTS NeverReturnsPlaceholder ValueFromLoaderOrStore LoaderOnceWhileHolderAlive LockStolenOnlyFromDead DelOnlyOwn DeadLockReleased
+INVARIANTS NeverReturnsPlaceholder ValueFromLoaderOrStore LoaderOnceWhileHolderAlive LockStolenOnlyFromDead DelOnlyOwn DeadLockReleased LockNamesRefreshedId HolderMarkerKeptAlive
 CONSTRAINT HighWater
 POSTCONDITION TraceAccepted
 CHECK_DEADLOCK FALSE
